@@ -124,8 +124,9 @@ NKey(S) == IF "nkey" \in DOMAIN S THEN S.nkey ELSE "default"
 RECURSIVE NewItems(_, _, _, _, _)
 LeafDefault(f) ==
     LET d == f.default IN
-    CASE f.kind = "list" /\ d.t = "list" ->
-            IF f.item.kind \in {"nofield"} THEN Ok(d)
+    \* (a tuple default is stored like an assigned tuple: as a list)
+    CASE f.kind = "list" /\ d.t \in {"list", "tuple"} ->
+            IF f.item.kind \in {"nofield"} THEN Ok(ListV(d.l))
             ELSE IF f.item.kind = "schema" THEN
                 \* ListProxy(cfg, field, default): every dict becomes a new item configuration
                 LET r == NewItems(f.item, d.l, <<>>, 1, <<>>) IN
